@@ -21,5 +21,8 @@ Kite == { {{1,2},{1,3},{2,3},{2,4}} }
 \* five nodes: two branches that meet again in front of the target
 Braid5 == { {{1,2},{1,3},{2,4},{3,4},{4,5}}, {{1,2},{2,3},{3,4},{4,5}}, {{1,2},{2,3},{3,4},{4,5},{5,1}} }
 
-DesignView == <<links, st, net, nsent, nfinds, ninjects, nexp, nloss>>
+\* S=1 - a=2 - X=3 - T=4, z=5 - T (relay that has to search: see RouteDiscoveryGen)
+Chain5 == { {{1,2},{2,3},{3,4},{5,4}} }
+
+DesignView == <<links, everlinks, st, parked, net, nsent, nfinds, ninjects, nexp, nloss, nlink>>
 =============================================================================
